@@ -150,6 +150,13 @@ func runHitCase(c *hitCase, seed int64) KV {
 		*t = tgt
 		return nil
 	})
+	if c.Tgt == "ok" && c.Build == "ok" && seed%2 == 1 {
+		// the same target through the library's JSON targeter, which fills in the Target it is handed (and so depends on
+		// that Target being a fresh one for every hit)
+		var doc bytes.Buffer
+		must(vegeta.NewJSONTargetEncoder(&doc).Encode(&tgt))
+		targeter = vegeta.NewJSONTargeter(&doc, nil, nil)
+	}
 	atk := vegeta.NewAttacker(opts...)
 	calls := 0
 	pacer := stopAfter{&calls, 1}
